@@ -74,14 +74,18 @@ def abstract_xml(model):
     return "\n".join(out) + "\n"
 
 
-def component_xml(types, base_pkg=None, imports=()):
+def component_xml(types, base_pkg=None, imports=(), explicit_file=0):
     """component.xml defining *types* (typedef dicts of the family format)."""
     out = ["<component>"]
     if base_pkg:
         out.append("  <import package=%s file='abstract.xml'/>"
                    % quoteattr(base_pkg))
-    for pkg in imports:
-        out.append("  <import package=%s/>" % quoteattr(pkg))
+    for i, pkg in enumerate(imports):
+        if explicit_file and (i + explicit_file) % 2:
+            out.append("  <import package=%s file='component.xml'/>"
+                       % quoteattr(pkg))
+        else:
+            out.append("  <import package=%s/>" % quoteattr(pkg))
     family.render_types(types, out)
     out.append("</component>")
     return "\n".join(out) + "\n"
